@@ -9,7 +9,7 @@
     [pid]; [selected s p] = shouldIncludePacket(session rooms, packet options).
     Hypothesis about the id generator (yeast): ids along a history are distinct - discharged for the
     real generator at the end of this file (C08_offset_ids_distinct), given a clock that never steps back. *)
-From SioV Require Import Base.GoSem Adapter.Session Adapter.SessionProofs Adapter.SessionConc Adapter.SessionConcProofs Adapter.SessionSlice Adapter.SessionSliceProofs Adapter.Yeast Adapter.YeastProofs.
+From SioV Require Import Base.GoSem Adapter.Session Adapter.SessionProofs Adapter.SessionConc Adapter.SessionConcProofs Adapter.SessionSlice Adapter.SessionSliceProofs Adapter.Yeast Adapter.YeastProofs Adapter.YeastSession.
 Open Scope Z_scope.
 
 (** A successful restore returns exactly the selected packets emitted after the offset packet, in
@@ -318,3 +318,25 @@ Proof. exact dec_enc. Qed.
 Theorem C08_offset_ids_backwards_clock_refuted :
   exists ts, Forall small ts /\ ~ NoDup (map render (ids_of ts)).
 Proof. exact backwards_clock_repeats. Qed.
+
+(** Composition (Adapter/YeastSession.v): [with_ids ids h] = the history [h] whose logged broadcasts take
+    their offset ids, in order, from [ids]; [draws h] = the number of logged broadcasts (= Yeast() calls:
+    Broadcast draws one id per logged packet, under the adapter's lock, and none otherwise).  A history
+    whose ids come from the generator satisfies the distinct-ids hypothesis ... *)
+Theorem C08_generated_ids_distinct : forall (num : list N -> N) ts h,
+  (forall a b, num a = num b -> a = b) ->
+  nondecreasing ts -> Forall small ts -> (N.of_nat (length ts) < 2 ^ 53)%N ->
+  (draws h <= length ts)%nat ->
+  NoDup (map p_id (emitted (with_ids (map num (map render (ids_of ts))) h))).
+Proof. exact generated_ids_distinct. Qed.
+
+(** ... so "never recovered with a gap" holds for it with nothing assumed about ids. *)
+Theorem C08_no_gap_generated : forall (num : list N -> N) ts W h0 t pid off s ms,
+  (forall a b, num a = num b -> a = b) ->
+  nondecreasing ts -> Forall small ts -> (N.of_nat (length ts) < 2 ^ 53)%N ->
+  (draws h0 <= length ts)%nat ->
+  let h := with_ids (map num (map render (ids_of ts))) h0 in
+  snd (step W t (ORestore pid off) (final W h)) = Some (Some (s, ms)) ->
+  forall pre p post q, emitted h = pre ++ p :: post -> p_id p = off ->
+    In q post -> selected s q = true -> In q ms.
+Proof. exact no_gap_generated. Qed.
